@@ -301,6 +301,7 @@ open(os.path.join(HDIR, "strings.mac"), "w").write('.ascii "a\\qb"\n.word 1\n')
 open(os.path.join(HDIR, "nums.mac"), "w").write(".word 8\n.word 1/0\n")
 open(os.path.join(HDIR, "chars.mac"), "w").write(".word 'я, 10\n")
 open(os.path.join(HDIR, "once.mac"), "w").write(".once\nk1 = 123\n.word k1\n")
+POOL += ["entry: nop\ncount = 7\nlab: nop\n", ".extern all\nentry: nop\ncount = 1\n", "entry:: nop\ncount == 2\nmov (, r0\n"]
 POOL += ["clr @r5\nmov @r0, @r1\n", "tstf @r2\nclr @r1\n.word\nemt #3\n", "clr @r5\nmov (, r0\n"]
 POOL += ['.once\nnop\n', '.include "%%s/once.mac"\n.include "%%s/once.mac"\n.word k1 + 1\n' %% (HDIR, HDIR), '.once\nmov r0\n']
 POOL += ['.include "%%s/strings.mac"\nnop\n' %% HDIR, '.include "%%s/nums.mac"\n' %% HDIR, '.include "%%s/chars.mac"\nhalt\n' %% HDIR]
@@ -312,19 +313,20 @@ def run(src, _r=_run0):
     import json
     return json.loads(json.dumps(_r(src)).replace(HDIR, "<HDR>"))       # the scratch directory's name differs from process to process
 rnd = random.Random(%d)
-PROBES = [PROBE, PROBE_OK, PROBE_INC, PROBE_ONCE]
+PROBE_EXT = ".extern all\nentry: mov #1, r0\ncount = 5\n.word count, entry\nlab:: nop\n"
+PROBES = [PROBE, PROBE_OK, PROBE_INC, PROBE_ONCE, PROBE_EXT]
 ONLY = os.environ.get("C18_ONLY")
 if ONLY is not None:
     # the reference: each probe alone, as the first and only assembly of a fresh process
     result = run(PROBES[int(ONLY)])
     shutil.rmtree(HDIR, ignore_errors=True)
     import json; print(json.dumps(result)); sys.exit(0)
-first = [run(PROBE), run(PROBE_OK) + [run(PROBE_INC), run(PROBE_ONCE)], process_state()]
+first = [run(PROBE), run(PROBE_OK) + [run(PROBE_INC), run(PROBE_ONCE), run(PROBE_EXT)], process_state()]
 bad = []
 for h in range(%d):
     for _ in range(rnd.randrange(1, 8)):
         run(rnd.choice(POOL))
-    now = [run(PROBE), run(PROBE_OK) + [run(PROBE_INC), run(PROBE_ONCE)], process_state()]
+    now = [run(PROBE), run(PROBE_OK) + [run(PROBE_INC), run(PROBE_ONCE), run(PROBE_EXT)], process_state()]
     if now != first:
         bad.append([h, [i for i in range(3) if now[i] != first[i]], now[2] if now[2] != first[2] else None])
 shutil.rmtree(HDIR, ignore_errors=True)
@@ -335,7 +337,7 @@ result = [first, bad]
     for seed in ("0", "1", "12345"):
         p = subprocess.run(["/venv/bin/python", "-c", code + "\nimport json; print(json.dumps(result))"], capture_output=True, text=True, env=dict(os.environ, PYTHONHASHSEED=seed), cwd="/", timeout=600)
         outs.append(p.stdout.strip().splitlines()[-1] if p.stdout.strip() else "ERR " + p.stderr[-300:])
-    for k in range(4):
+    for k in range(5):
         p = subprocess.run(["/venv/bin/python", "-c", code], capture_output=True, text=True, env=dict(os.environ, PYTHONHASHSEED="0", C18_ONLY=str(k)), cwd="/", timeout=600)
         try:
             fresh.append(json.loads(p.stdout.strip().splitlines()[-1]))
@@ -352,8 +354,8 @@ result = [first, bad]
     # the first probes of the history process (already preceded by one another) against each probe alone in a fresh process
     if parsed[0]:
         f0 = parsed[0][0]
-        seq = [f0[0], f0[1][:-2], f0[1][-2], f0[1][-1]]
-        for k in range(4):
+        seq = [f0[0], f0[1][:-3], f0[1][-3], f0[1][-2], f0[1][-1]]
+        for k in range(5):
             if seq[k] != fresh[k]:
                 ok = False
                 detail.append("probe %d differs from its result in a fresh process: %s vs fresh %s" % (k, str(seq[k])[:200], str(fresh[k])[:200]))
